@@ -352,6 +352,213 @@ theorem ev_paren {t u : Token} {ts ts' : List Token} {e : Expr} (ht : tk t.kind 
     simp only [cur_cons, hu, List.tail_cons]
     exact Ev.const _
 
+/-! ## CASE and IF -/
+
+/-- the optional operand of `parseCaseExpr` (tokens after CASE) -/
+def caseOperand (f : Nat) (ts : List Token) : Res (OExpr × List Token) :=
+  if cur ts = .when_ then .ok (OExpr.none, ts) else (parseExpr f ts).bind fun p => .ok (OExpr.some p.1, p.2)
+
+/-- the optional ELSE clause of `parseCaseExpr` -/
+def caseEls (f : Nat) (ts : List Token) : Res (OExpr × List Token) :=
+  if cur ts = .else_ then (parseCaseElse f ts).bind fun p => .ok (OExpr.some p.1, p.2) else .ok (OExpr.none, ts)
+
+theorem parseCaseExpr_succ (f : Nat) {ts : List Token} (h : cur ts = .case_) :
+    parseCaseExpr (f + 1) ts =
+      (caseOperand f ts.tail).bind fun o => (parseCaseWhen f o.2).bind fun w => (caseWhenLoop f w.2).bind fun ws =>
+        (caseEls f ws.2).bind fun el =>
+          if cur el.2 = .end_ then .ok (.caseE o.1 w.1.1 w.1.2 ws.1 el.1, el.2.tail) else .raise := by
+  simp only [parseCaseExpr, h, if_true, caseOperand, caseEls]
+
+theorem ev_caseOperand_none {ts : List Token} (h : cur ts = .when_) :
+    Ev (fun f => caseOperand f ts) (.ok (.none, ts)) :=
+  Ev.congr (fun f => by simp only [caseOperand, h, if_true]) (Ev.const _)
+
+theorem ev_caseOperand_some {ts ts' : List Token} {e : Expr} (h : cur ts ≠ .when_)
+    (he : Ev (fun f => parseExpr f ts) (.ok (e, ts'))) : Ev (fun f => caseOperand f ts) (.ok (.some e, ts')) := by
+  refine Ev.congr (q := fun f => (parseExpr f ts).bind fun p => .ok (OExpr.some p.1, p.2))
+    (fun f => by simp only [caseOperand, if_neg h]) ?_
+  ev_bind he
+  exact Ev.const _
+
+theorem ev_caseElse {t : Token} {ts ts' : List Token} {e : Expr} (ht : tk t.kind = .else_)
+    (he : Ev (fun f => parseExpr f ts) (.ok (e, ts'))) : Ev (fun f => parseCaseElse f (t :: ts)) (.ok (e, ts')) :=
+  Ev.step (fun f => by simp only [parseCaseElse, cur_cons, ht, if_true, List.tail_cons]) he
+
+theorem ev_caseEls_none {ts : List Token} (h : cur ts ≠ .else_) : Ev (fun f => caseEls f ts) (.ok (.none, ts)) :=
+  Ev.congr (fun f => by simp only [caseEls, if_neg h]) (Ev.const _)
+
+theorem ev_caseEls_some {t : Token} {ts ts' : List Token} {e : Expr} (ht : tk t.kind = .else_)
+    (he : Ev (fun f => parseExpr f ts) (.ok (e, ts'))) : Ev (fun f => caseEls f (t :: ts)) (.ok (.some e, ts')) := by
+  refine Ev.congr (q := fun f => (parseCaseElse f (t :: ts)).bind fun p => .ok (OExpr.some p.1, p.2))
+    (fun f => by simp only [caseEls, cur_cons, ht, if_true]) ?_
+  ev_bind (ev_caseElse ht he)
+  exact Ev.const _
+
+theorem ev_caseWhen {t u : Token} {ts ts1 ts2 : List Token} {c th : Expr} (ht : tk t.kind = .when_)
+    (h1 : Ev (fun f => parseExpr f ts) (.ok (c, u :: ts1))) (hu : tk u.kind = .then_)
+    (h2 : Ev (fun f => parseExpr f ts1) (.ok (th, ts2))) :
+    Ev (fun f => parseCaseWhen f (t :: ts)) (.ok ((c, th), ts2)) := by
+  refine Ev.step (q := fun f => (parseExpr f ts).bind fun c' =>
+      if cur c'.2 = .then_ then (parseExpr f c'.2.tail).bind fun t' => .ok ((c'.1, t'.1), t'.2) else .raise)
+    (fun f => by simp only [parseCaseWhen, cur_cons, ht, if_true, List.tail_cons]) ?_
+  ev_bind h1
+  simp only [cur_cons, hu, if_true, List.tail_cons]
+  ev_bind h2
+  exact Ev.const _
+
+theorem ev_caseLoop_cons {ts ts1 ts2 : List Token} {c th : Expr} {ws : Whens} (hc : cur ts = .when_)
+    (h1 : Ev (fun f => parseCaseWhen f ts) (.ok ((c, th), ts1)))
+    (h2 : Ev (fun f => caseWhenLoop f ts1) (.ok (ws, ts2))) :
+    Ev (fun f => caseWhenLoop f ts) (.ok (.cons c th ws, ts2)) := by
+  refine Ev.step (q := fun f => (parseCaseWhen f ts).bind fun w =>
+      (caseWhenLoop f w.2).bind fun q => .ok (.cons w.1.1 w.1.2 q.1, q.2))
+    (fun f => by simp only [caseWhenLoop, hc]) ?_
+  ev_bind h1
+  ev_bind h2
+  exact Ev.const _
+
+theorem ev_caseLoop_nil {ts : List Token} (h : cur ts ≠ .when_) : Ev (fun f => caseWhenLoop f ts) (.ok (.nil, ts)) := by
+  refine Ev.step (q := fun _ => .ok (.nil, ts)) (fun f => ?_) (Ev.const _)
+  simp only [caseWhenLoop]
+
+theorem ev_caseE {t u : Token} {ts ts1 ts2 ts3 ts4 : List Token} {o el : OExpr} {c th : Expr} {ws : Whens}
+    (ht : tk t.kind = .case_) (ho : Ev (fun f => caseOperand f ts) (.ok (o, ts1)))
+    (hw : Ev (fun f => parseCaseWhen f ts1) (.ok ((c, th), ts2)))
+    (hl : Ev (fun f => caseWhenLoop f ts2) (.ok (ws, ts3)))
+    (he : Ev (fun f => caseEls f ts3) (.ok (el, u :: ts4))) (hu : tk u.kind = .end_) :
+    Ev (fun f => parseLit f (t :: ts)) (.ok (.caseE o c th ws el, ts4)) := by
+  refine Ev.step (q := fun f => parseCaseExpr f (t :: ts)) (fun f => by simp only [parseLit, cur_cons, ht]) ?_
+  refine Ev.step (fun f => parseCaseExpr_succ f (ts := t :: ts) (by simp [ht])) ?_
+  simp only [List.tail_cons]
+  ev_bind ho
+  ev_bind hw
+  ev_bind hl
+  ev_bind he
+  simp only [cur_cons, hu, if_true, List.tail_cons]
+  exact Ev.const _
+
+theorem ev_ifE {t u v w x : Token} {ts ts1 ts2 ts3 : List Token} {c th e : Expr}
+    (ht : tk t.kind = .if_) (hu : tk u.kind = .lparen)
+    (h1 : Ev (fun f => parseExpr f ts) (.ok (c, v :: ts1))) (hv : tk v.kind = .comma)
+    (h2 : Ev (fun f => parseExpr f ts1) (.ok (th, w :: ts2))) (hw : tk w.kind = .comma)
+    (h3 : Ev (fun f => parseExpr f ts2) (.ok (e, x :: ts3))) (hx : tk x.kind = .rparen) :
+    Ev (fun f => parseLit f (t :: u :: ts)) (.ok (.ifE c th e, ts3)) := by
+  refine Ev.step (q := fun f => parseIfExpr f (t :: u :: ts)) (fun f => by simp only [parseLit, cur_cons, ht]) ?_
+  refine Ev.step (q := fun f => (parseExpr f ts).bind fun c' =>
+      if cur c'.2 = .comma then
+        (parseExpr f c'.2.tail).bind fun t' =>
+          if cur t'.2 = .comma then
+            (parseExpr f t'.2.tail).bind fun e' =>
+              if cur e'.2 = .rparen then .ok (.ifE c'.1 t'.1 e'.1, e'.2.tail) else .raise
+          else .raise
+      else .raise)
+    (fun f => by simp only [parseIfExpr, cur_cons, ht, hu, if_true, List.tail_cons]) ?_
+  ev_bind h1
+  simp only [cur_cons, hv, if_true, List.tail_cons]
+  ev_bind h2
+  simp only [cur_cons, hw, if_true, List.tail_cons]
+  ev_bind h3
+  simp only [cur_cons, hx, if_true, List.tail_cons]
+  exact Ev.const _
+
+/-! ## CAST -/
+
+/-- the loop of `parseIdentOrPath` (type model) walks an identifier chain that is not followed by `.` -/
+theorem pathLoop_complete' {rest : List Token} (hd : cur rest ≠ .dot) :
+    ∀ (ns : List Bytes) (pre : List Token), Reads pre (dotToks ns) →
+      ∃ n ids, ids.map (·.name) = ns ∧ ∀ f, n ≤ f → TypeP.pathLoop f (pre ++ rest) = .ok (ids, rest)
+  | [], pre, hr => by
+    rw [hr.nil]
+    refine ⟨1, [], rfl, fun f hf => ?_⟩
+    obtain ⟨g, rfl⟩ : ∃ g, f = g + 1 := ⟨f - 1, by omega⟩
+    have : TypeP.cur rest ≠ .dot := fun h => hd (tcur_dot.1 h)
+    simp [TypeP.pathLoop, this]
+  | a :: ns, pre, hr => by
+    obtain ⟨td, p1, rfl, htd, _, hr1⟩ := hr.cons
+    obtain ⟨tn, p2, rfl, htn, _, hr2⟩ := hr1.cons
+    obtain ⟨n, ids, hids, hn⟩ := pathLoop_complete' hd ns p2 hr2
+    obtain ⟨hk, hv⟩ := proj_ident htn
+    have hkd : TypeP.tk td.kind = .dot := ttk_dot.2 (tk_dot.1 (proj_T htd))
+    have hki : TypeP.tk tn.kind = .ident := TypeP.tk_ident.2 (tk_ident'.1 hk)
+    refine ⟨n + 1, ⟨tn.pos, tn.end, tn.asString⟩ :: ids, by simp [hids, hv], fun f hf => ?_⟩
+    obtain ⟨g, rfl⟩ : ∃ g, f = g + 1 := ⟨f - 1, by omega⟩
+    simp only [List.cons_append, TypeP.pathLoop, TypeP.cur_cons, hkd, if_true, List.tail_cons, TypeP.parseIdent,
+      TypeP.expect, hki, TypeP.hd_cons, TypeP.Res.bind_ok, hn g (by omega)]
+
+theorem ev_castType {ns : List Bytes} {pre rest : List Token} (hr : Reads pre (pathToks ns)) (hn : nfT ns = true)
+    (hd : cur rest ≠ .dot) : Ev (fun f => castType f (pre ++ rest)) (.ok (ns, rest)) := by
+  cases ns with
+  | nil => simp [nfT] at hn
+  | cons a ns =>
+    rw [pathToks_eq] at hr
+    obtain ⟨t, p, rfl, ht, _, hp⟩ := hr.cons
+    obtain ⟨hk, hv⟩ := proj_ident ht
+    have hkind : t.kind = .ident := tk_ident'.1 hk
+    obtain ⟨n, ids, hids, hloop⟩ := pathLoop_complete' hd ns p hp
+    have hs : TypeP.lookaheadSimpleType (t :: (p ++ rest)) = false := by
+      simp only [TypeP.lookaheadSimpleType, TypeP.cur_cons, TypeP.tk_ident.2 hkind, ne_eq, not_true_eq_false, if_false,
+        TypeP.hd_cons, TypeP.lookaheadKind, List.tail_cons, simpleName?_eq hkind, hv]
+      cases ns with
+      | nil =>
+        simp only [nfT, Option.isNone_iff_eq_none] at hn
+        simp [hn]
+      | cons b ns =>
+        obtain ⟨td, p1, rfl, htd, _, _⟩ := hp.cons
+        have : TypeP.tk td.kind = .dot := ttk_dot.2 (tk_dot.1 (proj_T htd))
+        simp [this]
+    refine ⟨n + 1, fun f hf => ?_⟩
+    obtain ⟨g, rfl⟩ : ∃ g, f = g + 1 := ⟨f - 1, by omega⟩
+    show castType (g + 1) (t :: (p ++ rest)) = _
+    rw [castType_succ hkind hs, hloop g (by omega)]
+    simp [hv, hids]
+
+theorem ev_cast {t u v w : Token} {ts ts1 ts2 : List Token} {e : Expr} {ns : List Bytes}
+    (ht : tk t.kind = .cast) (hu : tk u.kind = .lparen)
+    (h1 : Ev (fun f => parseExpr f ts) (.ok (e, v :: ts1))) (hv : tk v.kind = .as_)
+    (h2 : Ev (fun f => castType f ts1) (.ok (ns, w :: ts2))) (hw : tk w.kind = .rparen) :
+    Ev (fun f => parseLit f (t :: u :: ts)) (.ok (.cast e ns, ts2)) := by
+  refine Ev.step (q := fun f => parseCastExpr f (t :: u :: ts)) (fun f => by simp only [parseLit, cur_cons, ht]) ?_
+  refine Ev.step (q := fun f => (parseExpr f ts).bind fun p =>
+      if cur p.2 = .as_ then
+        (castType f p.2.tail).bind fun c => if cur c.2 = .rparen then .ok (.cast p.1 c.1, c.2.tail) else .raise
+      else .raise)
+    (fun f => by simp only [parseCastExpr, cur_cons, ht, hu, if_true, List.tail_cons]) ?_
+  ev_bind h1
+  simp only [cur_cons, hv, if_true, List.tail_cons]
+  ev_bind h2
+  simp only [cur_cons, hw, if_true, List.tail_cons]
+  exact Ev.const _
+
+/-! ## array literals -/
+
+theorem ev_arr_nil {t u : Token} {ts : List Token} (ht : tk t.kind = .lbrack) (hu : tk u.kind = .rbrack) :
+    Ev (fun f => parseLit f (t :: u :: ts)) (.ok (.array .nil, ts)) := by
+  refine Ev.step (q := fun f => parseSimpleArrayLiteral f (t :: u :: ts))
+    (fun f => by simp only [parseLit, cur_cons, ht]) ?_
+  refine Ev.step (q := fun _ => .ok (.array .nil, ts)) (fun f => ?_) (Ev.const _)
+  simp only [parseSimpleArrayLiteral, cur_cons, ht, hu, if_true, List.tail_cons]
+
+theorem ev_arr_cons {t u : Token} {ts ts1 ts2 : List Token} {first : Expr} {more : Exprs}
+    (ht : tk t.kind = .lbrack) (hne : cur ts ≠ .rbrack)
+    (h1 : Ev (fun f => parseExpr f ts) (.ok (first, ts1)))
+    (h2 : Ev (fun f => inListLoop f ts1) (.ok (more, u :: ts2))) (hu : tk u.kind = .rbrack) :
+    Ev (fun f => parseLit f (t :: ts)) (.ok (.array (.cons first more), ts2)) := by
+  refine Ev.step (q := fun f => parseSimpleArrayLiteral f (t :: ts))
+    (fun f => by simp only [parseLit, cur_cons, ht]) ?_
+  have hstep : ∀ f, parseSimpleArrayLiteral (f + 1) (t :: ts) =
+      (parseExpr f ts).bind fun p => (inListLoop f p.2).bind fun q =>
+        if cur q.2 = .rbrack then .ok (.array (.cons p.1 q.1), q.2.tail) else .raise := by
+    intro f
+    have hne' : ¬ cur (t :: ts).tail = .rbrack := hne
+    simp only [parseSimpleArrayLiteral, cur_cons, ht, if_true]
+    rw [if_neg hne']
+    simp only [List.tail_cons]
+  refine Ev.step hstep ?_
+  · ev_bind h1
+    ev_bind h2
+    simp only [cur_cons, hu, if_true, List.tail_cons]
+    exact Ev.const _
+
 /-- a production that does not look at the fuel beyond its own unit -/
 theorem ev_lit_of_eq {ts : List Token} {r : PR} (h : ∀ f, parseLit (f + 1) ts = r) : Ev (fun f => parseLit f ts) r :=
   Ev.step (q := fun _ => r) h (Ev.const _)
